@@ -390,63 +390,56 @@ where
         b: NodeIndex<Ix>,
         weight: E,
     ) -> Result<EdgeIndex<Ix>, GraphError> {
-        let edge_idx;
-        let mut new_edge = None::<Edge<_, _>>;
-        {
-            let edge: &mut Edge<_, _>;
-
-            if self.free_edge != EdgeIndex::end() {
-                edge_idx = self.free_edge;
-                edge = &mut self.g.edges[edge_idx.index()];
-                let _old = replace(&mut edge.weight, Some(weight));
-                debug_assert!(_old.is_none());
-                self.free_edge = edge.next[0];
-                edge.node = [a, b];
-            } else {
-                edge_idx = EdgeIndex::new(self.g.edges.len());
-                if !(<Ix as IndexType>::max().index() == !0 || EdgeIndex::end() != edge_idx) {
-                    return Err(GraphError::EdgeIxLimit);
-                }
-                new_edge = Some(Edge {
-                    weight: Some(weight),
-                    node: [a, b],
-                    next: [EdgeIndex::end(); 2],
-                });
-                edge = new_edge.as_mut().unwrap();
+        // The vacant edge slot (if any) is only taken off the free list once the
+        // endpoints have been validated, so that an error leaves the graph unchanged.
+        let reuse_vacant = self.free_edge != EdgeIndex::end();
+        let edge_idx = if reuse_vacant {
+            self.free_edge
+        } else {
+            let edge_idx = EdgeIndex::new(self.g.edges.len());
+            if !(<Ix as IndexType>::max().index() == !0 || EdgeIndex::end() != edge_idx) {
+                return Err(GraphError::EdgeIxLimit);
             }
+            edge_idx
+        };
+        let mut edge = Edge {
+            weight: Some(weight),
+            node: [a, b],
+            next: [EdgeIndex::end(); 2],
+        };
 
-            let wrong_index = match index_twice(&mut self.g.nodes, a.index(), b.index()) {
-                Pair::None => Some(cmp::max(a.index(), b.index())),
-                Pair::One(an) => {
-                    if an.weight.is_none() {
-                        Some(a.index())
-                    } else {
-                        edge.next = an.next;
-                        an.next[0] = edge_idx;
-                        an.next[1] = edge_idx;
-                        None
-                    }
-                }
-                Pair::Both(an, bn) => {
-                    // a and b are different indices
-                    if an.weight.is_none() {
-                        Some(a.index())
-                    } else if bn.weight.is_none() {
-                        Some(b.index())
-                    } else {
-                        edge.next = [an.next[0], bn.next[1]];
-                        an.next[0] = edge_idx;
-                        bn.next[1] = edge_idx;
-                        None
-                    }
-                }
-            };
-            if let Some(i) = wrong_index {
-                return Err(GraphError::NodeMissed(i));
+        match index_twice(&mut self.g.nodes, a.index(), b.index()) {
+            Pair::None => {
+                return Err(GraphError::NodeMissed(cmp::max(a.index(), b.index())));
             }
-            self.edge_count += 1;
+            Pair::One(an) => {
+                if an.weight.is_none() {
+                    return Err(GraphError::NodeMissed(a.index()));
+                }
+                edge.next = an.next;
+                an.next[0] = edge_idx;
+                an.next[1] = edge_idx;
+            }
+            Pair::Both(an, bn) => {
+                // a and b are different indices
+                if an.weight.is_none() {
+                    return Err(GraphError::NodeMissed(a.index()));
+                }
+                if bn.weight.is_none() {
+                    return Err(GraphError::NodeMissed(b.index()));
+                }
+                edge.next = [an.next[0], bn.next[1]];
+                an.next[0] = edge_idx;
+                bn.next[1] = edge_idx;
+            }
         }
-        if let Some(edge) = new_edge {
+        self.edge_count += 1;
+        if reuse_vacant {
+            let slot = &mut self.g.edges[edge_idx.index()];
+            debug_assert!(slot.weight.is_none());
+            self.free_edge = slot.next[0];
+            *slot = edge;
+        } else {
             self.g.edges.push(edge);
         }
         Ok(edge_idx)
